@@ -246,7 +246,9 @@ func init() {
 		}
 		groups := c17Drain(ch)
 		em := "-"
-		if len(groups) == 1 {
+		if len(groups) == 1 && len(groups[0]) == 0 {
+			em = "empty" // an empty batch on the message channel makes relayer.route index msgs[0]
+		} else if len(groups) == 1 {
 			em = c17Idx(groups[0])
 		} else if len(groups) > 1 {
 			return "many"
